@@ -56,8 +56,14 @@ def run_shape(shape, tier):
         full = {env.tags[c]: row[c] for c in COLS}
         obs = []
         try:
-            v = (it.convert_predicate if is_pred else it.convert_column_expression)(obj)(full)
+            fn = (it.convert_predicate if is_pred else it.convert_column_expression)(obj)
+            v = fn(full)
             obs.append(("iteration callable == meaning", (zbool(v) if is_pred else zint(v)) == truth, {}))
+            # the same compiled callable applied to a second, independent row (callables are reused for every row)
+            row2 = {c: ctx.int(f"row2.{c}", -VBOUND, VBOUND) for c in COLS}
+            truth2 = exprsem.z3_of_ast(ast, {c: row2[c].t for c in COLS}, env.bind)
+            v2 = fn({env.tags[c]: row2[c] for c in COLS})
+            obs.append(("iteration callable reused on a second row == meaning", (zbool(v2) if is_pred else zint(v2)) == truth2, {}))
         except Exception as e:  # noqa: BLE001
             obs.append(("iteration callable evaluates", False, {"exc": f"{type(e).__name__}: {e}"[:150]}))
         try:
@@ -84,13 +90,14 @@ def run_shape(shape, tier):
         m = cx["model"]
         bind = {"$k": m.get("k", 0), "$m": m.get("m", 0)}
         row = {c: m.get(f"row.{c}", 0) for c in COLS}
-        fails, what, detail = concrete_check(shape, row, bind)
+        row2 = {c: m.get(f"row2.{c}", 0) for c in COLS}
+        fails, what, detail = concrete_check(shape, row, bind, row2)
         if not fails:
             out["status"] = "harness-error"
             out["detail"] = f"counterexample does not reproduce: {exprsem.ast_str(ast)} row={row} bind={bind} [{cx['label']}] {cx['info']}"
             return out
         vios.append({"site": _site(shape, what), "summary": f"{exprsem.ast_str(ast)} on row {row} with {bind}: {what} {detail}",
-                     "replay": {"shape": to_jsonable(shape), "row": row, "bind": bind, "what": what}})
+                     "replay": {"shape": to_jsonable(shape), "row": row, "row2": row2, "bind": bind, "what": what}})
     if vios:
         out["status"], out["violations"] = VIOLATION, vios
     elif res.inconclusive or not res.complete:
@@ -120,7 +127,7 @@ def _site(shape, what):
     return f"{what}: {exprsem.ast_str(shape['ast'])}"
 
 
-def concrete_check(shape, row, bind):
+def concrete_check(shape, row, bind, row2=None):
     """Three-way evaluation with ordinary ints: python callable, real SQLite, plain evaluator."""
     ast = shape["ast"]
     is_pred = shape["kind"] != "expr"
@@ -131,9 +138,15 @@ def concrete_check(shape, row, bind):
     it = env.engines["it1"]
     full = {env.tags[c]: row[c] for c in COLS}
     try:
-        v = (it.convert_predicate if is_pred else it.convert_column_expression)(obj)(full)
+        fn = (it.convert_predicate if is_pred else it.convert_column_expression)(obj)
+        v = fn(full)
         if (bool(v) if is_pred else v) != truth:
             return True, "iteration-differs", {"iteration": v, "expected": truth}
+        if row2 is not None:
+            truth2 = exprsem.py_of_ast(ast, row2, bind)
+            v2 = fn({env.tags[c]: row2[c] for c in COLS})
+            if (bool(v2) if is_pred else v2) != truth2:
+                return True, "iteration-differs-on-reuse", {"first row": row, "second row": row2, "iteration": v2, "expected": truth2}
     except Exception as e:  # noqa: BLE001
         return True, f"iteration-raises:{type(e).__name__}", str(e)[:100]
     try:
@@ -149,7 +162,7 @@ def concrete_check(shape, row, bind):
 def replay(v):
     r = v["replay"]
     shape = {"kind": r["shape"]["kind"], "ast": from_jsonable(r["shape"]["ast"])}
-    fails, what, detail = concrete_check(shape, r["row"], r["bind"])
+    fails, what, detail = concrete_check(shape, r["row"], r["bind"], r.get("row2"))
     return fails, f"{exprsem.ast_str(shape['ast'])} row={r['row']} bind={r['bind']}: {what or 'agrees'} {detail}"
 
 
